@@ -160,9 +160,22 @@ inline void with_buffer(const P& p, const ExecOp& op, Outcome& out)
     }
     else
     {
-        ctpg::buffers::string_buffer buf{ std::string(op.input) };
-        simrt::set_buffer(buf.begin().base(), int64_t(n));
-        with_stream(p, op, buf, out);
+        // a caller may hand over a string_buffer that was copied or moved around before: build it, copy or move it,
+        // destroy the source (which way is decided by the input, so the run stays a function of the plan)
+        auto src = std::make_unique<ctpg::buffers::string_buffer>(std::string(op.input));
+        unsigned how = unsigned(n % 3);
+        if (how == 0)
+        {
+            simrt::set_buffer(n ? &*src->begin() : nullptr, int64_t(n));
+            with_stream(p, op, *src, out);
+        }
+        else
+        {
+            std::unique_ptr<ctpg::buffers::string_buffer> buf(how == 1 ? new ctpg::buffers::string_buffer(*src) : new ctpg::buffers::string_buffer(std::move(*src)));
+            src.reset();
+            simrt::set_buffer(n ? &*buf->begin() : nullptr, int64_t(n));
+            with_stream(p, op, *buf, out);
+        }
     }
 }
 
